@@ -77,6 +77,7 @@ class Gen:
         self.n = 0
         self.items = []
         self.binaries = binaries
+        self.tupled = set()     # names ever bound to a tuple value or by a destructuring pattern
         self.stats = dict(bind=0, destructure=0, shadow=0, alias=0, function=0, capture=0, call=0, value=0,
                           consume_prev=0, nil=0, import_=0, reject_parse=0, reject_compile=0, binary_bind=0,
                           alias_use=0)
@@ -87,6 +88,12 @@ class Gen:
         return "%s%d" % (p, self.n)
 
     def pick_name(self):
+        n = self.pick_name_any()
+        while n in self.tupled:     # known defect: a binder that shadows a tuple-valued variable keeps the
+            n = self.fresh()        # shadowed type inside one compilation unit (stale narrowing)
+        return n
+
+    def pick_name_any(self):
         r = self.rng.random()
         bound = [n for n in self.vars]
         if bound and r < 0.35:
@@ -178,10 +185,16 @@ class Gen:
         if nil:
             self.prev = None
 
-    def bind(self, name, t, v):
+    def bind(self, name, t, v, src=None):
         if name in self.vars:
             self.stats["shadow"] += 1
         self.vars[name] = (t, v)
+        # Names that may not be rebound later (stale-narrowing defect of the compiler inside one
+        # compilation unit, reported): bound to a tuple value, by a destructuring pattern, from the
+        # previous result, or from an expression with a provenance (a variable / field reference).
+        plain = src is not None and (src.endswith("__") or re.fullmatch(r"-?\d+|0x[0-9a-f]*", src) or src == "#fn" or src == "#call")
+        if (isinstance(t, tuple) and t[0] == "tup") or not plain:
+            self.tupled.add(name)
         if t == "bin" or (isinstance(t, tuple) and "bin" in json.dumps(t)):
             self.stats["binary_bind"] += 1
 
@@ -194,7 +207,7 @@ class Gen:
             src = "%s = %s" % (name, s)
         else:
             src = "%s =%s" % (s, name)
-        self.bind(name, t, v)
+        self.bind(name, t, v, src=s)
         self.add_step(src, "ok", VOK, "bind", binds=[name])
 
     def step_destructure(self):
@@ -206,7 +219,7 @@ class Gen:
         form = rng.choice(["full", "full", "partial", "star", "placeholder", "nested-literal"])
         labelled = all(t[2]) and len(set(t[2])) == len(t[2])
         names = []
-        if form in ("partial", "star") and not labelled:
+        if form in ("partial", "star") and (not labelled or any(l in self.tupled for l in t[2])):
             form = "full"
         if form == "star":
             pat = (t[1] or "") + "*"
@@ -240,6 +253,7 @@ class Gen:
             src = "%s =%s" % (s, pat)
         for n, ft, fv in names:
             self.bind(n, ft, fv)
+            self.tupled.add(n)      # (binders of a destructuring pattern carry a narrowing as well)
         self.add_step(src, "ok", VOK, "destructure", binds=[n for n, _, _ in names])
 
     def step_alias(self):
@@ -282,6 +296,11 @@ class Gen:
         else:
             pt = ("tup", rng.choice(TNAMES), ("x", "y"), ("int", rng.choice(["int", "bin"])))
             o, ov = self.expr("int", 1)
+            if re.search(r"\b[xy]\b", o):
+                # (side observation, same in the REPL and in one program: a function body that reads
+                # field `.x` of its parameter and also mentions a captured variable named `x` is
+                # rejected with VariableUndefined)
+                o, ov = self.literal("int")
             cap = not o.lstrip("-").isdigit()
             body, rt = "[.x, %s] __integer_multiply__" % o, "int"
             fn = lambda a, ov=ov: ("i", a[3][0][1] * ov[1])
@@ -289,7 +308,7 @@ class Gen:
         if cap:
             self.stats["capture"] += 1
         src = "%s = #%s { %s }" % (name, self.param_type_src(pt), body)
-        self.bind(name, ("fn", pt, rt), ("f", fn))
+        self.bind(name, ("fn", pt, rt), ("f", fn), src="#fn")
         self.add_step(src, "ok", VOK, "function", binds=[name])
 
     def step_call(self):
@@ -309,7 +328,7 @@ class Gen:
             while name == f:
                 name = self.fresh()
             src = "%s %s =%s" % (a, f, name) if r < 0.7 else "%s = %s %s" % (name, a, f)
-            self.bind(name, ft[2], res)
+            self.bind(name, ft[2], res, src="#call")
             self.add_step(src, "ok", VOK, "call-bind", binds=[name])
 
     def step_value(self):
